@@ -293,7 +293,30 @@ class Engine:
             fail("type %s%s where %s expected" % ("option " if v.opt else "", v.ty, ty), node)
 
     def attr(self, base, attr, e, env, W):
+        if (base.ty, attr) in self.calls:
+            # a bound method used as a value (`f = y_pred.median`): applied when it is called
+            return V("", "callable", py=("method", e))
         fail("attribute .%s of a value of type %s" % (attr, base.ty), e)
+
+    def apply_callable(self, c, e, env, W):
+        """call a callable value: a bound method, or a conditional choice between callables (the
+        call distributes over the choice)"""
+        if c[0] == "method":
+            new = ast.copy_location(ast.Call(func=c[1], args=e.args, keywords=e.keywords), e)
+            return self.call(new, env, W)
+        _, cond, a, b = c
+        if cond["k"] != "bool":
+            fail("choice between callables on an `is None` test", e)
+        out = []
+        for x in (a, b):
+            Wx = []
+            v = self.force(self.apply_callable(x, e, dict(env), Wx), env, Wx)
+            if any(w[0] != "let" for w in Wx):
+                fail("a chosen callable has effects", e)
+            out.append((v, paren(nest(Wx, v.t))))
+        if out[0][0].ty != out[1][0].ty:
+            fail("chosen callables return %s / %s" % (out[0][0].ty, out[1][0].ty), e)
+        return V(self.choose(cond, out[0][1], out[1][1]), out[0][0].ty)
 
     def subscript(self, base, sl, e, env, W):
         fail("subscript of a value of type %s" % base.ty, e)
@@ -314,6 +337,8 @@ class Engine:
                 func=ast.copy_location(ast.Attribute(value=f.args[0], attr=nm.py, ctx=ast.Load()), f),
                 args=e.args, keywords=e.keywords), e)
             return self.call(new, env, W)
+        if isinstance(f, ast.Name) and env.get(f.id) == "callable":
+            return self.apply_callable(env["@py:" + f.id], e, env, W)
         if isinstance(f, ast.Name):
             key = ("fn", f.id)
         elif isinstance(f, ast.Attribute) and isinstance(f.value, ast.Name) and f.value.id == "self":
@@ -334,6 +359,20 @@ class Engine:
         if h is None:
             fail("call of %s" % (key,), e)
         return h(e, recv, env, W)
+
+    def helper_of(self, e):
+        """(FunctionDef, is_method) when `e` calls a helper of the source that has no handler"""
+        f = e.func
+        if isinstance(f, ast.Name):
+            key = ("fn", f.id)
+        elif isinstance(f, ast.Attribute) and isinstance(f.value, ast.Name) and f.value.id == "self":
+            key = ("self", f.attr)
+        else:
+            return None
+        if key in self.calls:
+            return None
+        fn = self.find_callable(key[1], key[0] == "self")
+        return (fn, key[0] == "self") if fn is not None else None
 
     # ------------------------------------------------------------------ interprocedural: inlining
     def find_callable(self, name, is_method):
@@ -356,25 +395,7 @@ class Engine:
             fail("recursive helper %s" % fn.name, call)
         if fn.decorator_list:
             fail("decorated helper %s" % fn.name, call)
-        self.ninline += 1
-        prefix = "h%d_" % self.ninline
-        names, defaults, kw = sig_of(fn)
-        if kw:
-            fail("helper %s takes **%s" % (fn.name, kw), call)
-        if not is_method and fn.args.args and fn.args.args[0].arg == "self":
-            fail("module-level helper with a self parameter", call)
-        b = bind(call, names, fn.name)
-        local = set(names) | {n.id for n in ast.walk(fn) if isinstance(n, ast.Name)
-                              and isinstance(n.ctx, ast.Store)}
-        body = [_RenameLocals(prefix, local).visit(ast.parse(ast.unparse(st)).body[0])
-                for st in body_of(fn)]
-        env2 = {k: v for k, v in env.items() if k[0] in "$#" or k == "@fitted"}
-        for p in names:
-            node = b.get(p, defaults.get(p))
-            if node is None:
-                fail("call of the helper %s gives no value for %s" % (fn.name, p), call)
-            v = self.force(self.expr(node, env, W), env, W)
-            self.assign_name(prefix + p, v, call, env2, W)
+        body, env2 = self.bind_helper(fn, call, env, W, is_method)
         ret = None
         if body and isinstance(body[-1], ast.Return):
             ret, body = body[-1].value, body[:-1]
@@ -394,6 +415,121 @@ class Engine:
             if k[0] == "$" or k == "@fitted":
                 env[k] = env2[k]
         return v
+
+    def bind_helper(self, fn, call, env, W, is_method):
+        """rename the helper's locals, bind its parameters to the arguments -> (body, environment)"""
+        self.ninline += 1
+        prefix = "h%d_" % self.ninline
+        names, defaults, kw = sig_of(fn)
+        if kw:
+            fail("helper %s takes **%s" % (fn.name, kw), call)
+        if not is_method and fn.args.args and fn.args.args[0].arg == "self":
+            fail("module-level helper with a self parameter", call)
+        b = bind(call, names, fn.name)
+        local = set(names) | {n.id for n in ast.walk(fn) if isinstance(n, ast.Name)
+                              and isinstance(n.ctx, ast.Store)}
+        body = [_RenameLocals(prefix, local).visit(ast.parse(ast.unparse(st)).body[0])
+                for st in body_of(fn)]
+        env2 = {k: v for k, v in env.items() if k[0] in "$#" or k == "@fitted"}
+        for p in names:
+            node = b.get(p, defaults.get(p))
+            if node is None:
+                fail("call of the helper %s gives no value for %s" % (fn.name, p), call)
+            if isinstance(node, ast.Name) and node.id not in env and self.passes_through(node.id):
+                env2["@through:" + prefix + p] = node.id      # e.g. alpha=alpha: handed on, never read
+                continue
+            v = self.force(self.expr(node, env, W), env, W)
+            self.assign_name(prefix + p, v, call, env2, W)
+        return body, env2
+
+    @staticmethod
+    def is_through(node, p, env):
+        """is `node` the parameter p handed on unchanged (possibly through inlined helpers)?"""
+        return isinstance(node, ast.Name) and (node.id == p or env.get("@through:" + node.id) == p)
+
+    def passes_through(self, name):
+        """names of parameters the translation never reads (specialised / ignored)"""
+        return name in self.SPECIALISED_FALSE
+
+    def inline_tail(self, fn, call, env, fin, is_method):
+        """`return helper(args)`: the helper's body continues the function (its returns are the
+        function's returns, so guard clauses inside it are fine)"""
+        if fn.name in self.inlining or len(self.inlining) > 4:
+            fail("recursive helper %s" % fn.name, call)
+        if fn.decorator_list:
+            fail("decorated helper %s" % fn.name, call)
+        W = []
+        body, env2 = self.bind_helper(fn, call, env, W, is_method)
+        self.inlining.append(fn.name)
+        token = self.enter_helper(fn)
+        saved_loopfin, self.loopfin = self.loopfin, []
+        try:
+            text = self.block(body, env2, lambda e: self.ret(None, e, []))
+        finally:
+            self.loopfin = saved_loopfin
+            self.leave_helper(token)
+            self.inlining.pop()
+        return nest(W, text)
+
+    def try_finally(self, body, finalbody, rest, env, fin):
+        """try: body finally: finalbody; the finally part runs on the normal path (before `rest`)
+        and on the raising path (before the enclosing fail text)"""
+        exitW = []
+        env_exit = dict(env)
+        for st in finalbody:
+            self.simple(st, env_exit, exitW)
+        if any(w[0] != "let" for w in exitW):
+            fail("the finally part may raise", finalbody[0])
+
+        def after(e):
+            top = self.failtext.pop()             # the code after the try is outside its protection
+            try:
+                return nest(exitW, self.block(rest, dict(e), fin))
+            finally:
+                self.failtext.append(top)
+        self.failtext.append(paren(nest(exitW, self.cur_fail())))
+        try:
+            return self.block(body, env, after)
+        finally:
+            self.failtext.pop()
+
+    def context_manager(self, s, rest, env, fin):
+        """`with self.<cm>():` for a parameterless generator-based context manager of the source:
+        its statements before the yield; try: <with body> finally: <its finally part> (or, without
+        try/finally, its statements after the yield on the normal path only)"""
+        if len(s.items) != 1 or s.items[0].optional_vars is not None \
+                or not isinstance(s.items[0].context_expr, ast.Call):
+            fail("with statement", s)
+        call = s.items[0].context_expr
+        h = self.helper_of(call)
+        if h is None or not h[1] or call.args or call.keywords:
+            fail("with statement over something that is not a helper of the source", s)
+        cm = h[0]
+        if [u(d) for d in cm.decorator_list] != ["contextmanager"] or sig_of(cm)[0]:
+            fail("%s is not a parameterless @contextmanager" % cm.name, cm)
+        self.ninline += 1
+        local = {n.id for n in ast.walk(cm) if isinstance(n, ast.Name) and isinstance(n.ctx, ast.Store)}
+        body = [_RenameLocals("cm%d_" % self.ninline, local).visit(ast.parse(ast.unparse(st)).body[0])
+                for st in body_of(cm)]
+
+        def is_yield(x):
+            return isinstance(x, ast.Expr) and isinstance(x.value, ast.Yield) and x.value.value is None
+        pre, i = [], 0
+        while i < len(body) and not is_yield(body[i]) and not isinstance(body[i], ast.Try):
+            pre.append(body[i])
+            i += 1
+        if i == len(body):
+            fail("%s does not yield" % cm.name, cm)
+        W = []
+        env = dict(env)
+        for st in pre:
+            self.simple(st, env, W)
+        if isinstance(body[i], ast.Try):
+            t = body[i]
+            if t.handlers or t.orelse or len(t.body) != 1 or not is_yield(t.body[0]) or i != len(body) - 1:
+                fail("%s: try statement shape" % cm.name, t)
+            return nest(W, self.try_finally(s.body, t.finalbody, rest, env, fin))
+        return nest(W, self.block(s.body + body[i + 1:] + rest, env, fin))
 
     def seq(self, stmts, env, W):
         """straight-line translation INTO the wrapper list W (used for inlined helpers): simple
@@ -468,6 +604,8 @@ class Engine:
             (env_t if c["then_some"] else env_e)[c["var"]] = c["ity"]
         vt, Wt, pt = branch(e.body, env_t)
         ve, We, pe = branch(e.orelse, env_e)
+        if vt.ty == "callable" and ve.ty == "callable" and not Wt and not We:
+            return V("", "callable", py=("if", c, vt.py, ve.py))
         if vt.ty != ve.ty:
             fail("conditional expression with branches of type %s / %s" % (vt.ty, ve.ty), e)
         opt = pt or pe
@@ -528,11 +666,14 @@ class Engine:
             if not terms:
                 return {"k": "static", "v": is_and}
             return {"k": "bool", "t": "(" + (" && " if is_and else " || ").join(terms) + ")"}
-        if isinstance(t, ast.Name) and t.id in self.SPECIALISED_FALSE:
+        if isinstance(t, ast.Name) and (t.id in self.SPECIALISED_FALSE
+                                        or env.get("@through:" + t.id) in self.SPECIALISED_FALSE):
             return {"k": "static", "v": False}
         if isinstance(t, ast.Name) and env.get(t.id) == "B" and isinstance(env.get("@py:" + t.id), bool):
             return {"k": "static", "v": env["@py:" + t.id]}      # bound to a boolean constant
         v = self.force(self.expr(t, env, W), env, W)
+        if v.ty == "B" and isinstance(v.py, bool):
+            return {"k": "static", "v": v.py}
         if v.ty == "B":
             return {"k": "bool", "t": v.t}
         if v.ty == "Z":                           # truthiness of an integer (`if len(y):`)
@@ -574,7 +715,16 @@ class Engine:
             return self.loopfin[-1](env)
         if isinstance(s, ast.With):
             return self.with_stmt(s, rest, env, fin)
+        if isinstance(s, ast.Try):
+            if s.handlers or s.orelse or not s.finalbody:
+                fail("try statement other than try/finally", s)
+            return self.try_finally(s.body, s.finalbody, rest, env, fin)
         if isinstance(s, ast.Return):
+            if isinstance(s.value, ast.Call):
+                h = self.helper_of(s.value)
+                if h is not None and not any(isinstance(n, (ast.Yield, ast.YieldFrom))
+                                             for n in ast.walk(h[0])):
+                    return self.inline_tail(h[0], s.value, env, fin, h[1])
             t = self.ret(s.value, env, W)
             return nest(W, t)
         if isinstance(s, ast.Raise):
@@ -655,7 +805,7 @@ class Engine:
         fail("return", value)
 
     def with_stmt(self, s, rest, env, fin):
-        fail("with statement", s)
+        return self.context_manager(s, rest, env, fin)
 
     # -- if
     @staticmethod
@@ -874,6 +1024,7 @@ class Engine:
         W.append(("let", pat, "fold_left %s %s %s" % (fn, src["list"], init)))
         for n in muts:
             self.bound.append(n)
+        self.loop_done(env, ends2[0] if ends2 else env)
         if may_fail:
             W.append(("iftrue", "ok_", self.cur_fail()))
         if comp is not None:
@@ -894,6 +1045,10 @@ class Engine:
         if ty not in self.COQTY:
             fail("no Gallina type for values of type %s" % ty)
         return self.COQTY[ty]
+
+    def loop_done(self, env, env_end):
+        """facts about the finished loop carried to the code after it (subclasses)"""
+        return
 
     def loop_collects(self, src, env_end, s, bound):
         """Gallina term of the element to collect per iteration (objects mutated in place), or None"""
